@@ -90,15 +90,16 @@ Fixpoint digits_acc (w : nat) (v : Z) (acc : list Z) : list Z :=
 (* exactly w digits of v, most significant first (v < 10^w) *)
 Definition digits_w (w : nat) (v : Z) : list Z := digits_acc w v [].
 
-Fixpoint strip0 (l : list Z) : list Z :=
-  match l with
-  | c :: ((_ :: _) as r) => if c =? 48 then strip0 r else l
-  | _ => l
+(* number of decimal digits of v >= 0 (at least one); fuel log2 v suffices *)
+Fixpoint ndig (fuel : nat) (v : Z) : nat :=
+  match fuel with
+  | O => 1%nat
+  | S f => if v <? 10 then 1%nat else S (ndig f (v / 10))
   end.
 
 (* decimal numeral of v >= 0 without leading zeros ("0" for zero) *)
 Definition dec_digits (v : Z) : list Z :=
-  strip0 (digits_w (S (Z.to_nat (Z.log2 v))) v).
+  digits_w (ndig (Z.to_nat (Z.log2 v)) v) v.
 
 (* '%.<nd>f' of the scaled integer N = |x| * 10^nd *)
 Definition fmt_fixed (neg : bool) (N nd : Z) : list Z :=
